@@ -1,7 +1,7 @@
 import AITB.Model.Proto
 import AITB.Model.Experience
+import AITB.Model.ExperienceCfg
 import AITB.Gen.Constants
-import AITB.Gen.C07
 open AITB AITB.Exp
 
 /-
@@ -35,22 +35,16 @@ structure Variant where
   modC : String
   cfg : Cfg
 
-def mkCfg (period : Nat) (n1 junkB : Bool) (junk : Rat) (rt : Option Rat) (sg : Bool := false) : Cfg :=
-  { period := period, n1Clear := n1, ctorJunk := junkB, junk := fun _ _ => junk, rewTol := rt, sparseGeneric := sg }
-
 def variantOf (name : String) (junk : Rat) : Option Variant :=
-  let pd := AITB.Gen.resyncPeriodDense
-  let ps := AITB.Gen.resyncPeriodSparse
-  let st := if AITB.Gen.C07.sparseRewardGuard then some AITB.Gen.equalToleranceSmall else none
   match name with
-  | "dense"   => some ⟨"MDP::Experience", "MaximumLikelihoodModel", mkCfg pd AITB.Gen.C07.denseN1Clear AITB.Gen.C07.denseCtorJunk junk none⟩
-  | "dsparse" => some ⟨"MDP::SparseExperience", "MaximumLikelihoodModel", mkCfg pd AITB.Gen.C07.denseN1Clear AITB.Gen.C07.denseCtorJunk junk none⟩
-  | "generic" => some ⟨"GenericExperience", "MaximumLikelihoodModel", mkCfg pd AITB.Gen.C07.denseN1Clear AITB.Gen.C07.denseCtorJunk junk none⟩
-  | "sparse"  => some ⟨"MDP::SparseExperience", "SparseMaximumLikelihoodModel", mkCfg ps AITB.Gen.C07.sparseN1Clear false junk st⟩
-  | "gsparse" => some ⟨"GenericExperience", "SparseMaximumLikelihoodModel<generic>", mkCfg ps AITB.Gen.C07.sparseN1Clear false junk st AITB.Gen.C07.sparseGenericPartial⟩
-  | "bandit"  => some ⟨"Bandit::Experience", "none", mkCfg pd true false junk none⟩
-  | "fbandit" => some ⟨"Factored::Bandit::Experience", "none", mkCfg pd true false junk none⟩
-  | "coop"    => some ⟨"CooperativeExperience", "CooperativeMaximumLikelihoodModel", mkCfg pd true false junk none⟩
+  | "dense"   => some ⟨"MDP::Experience", "MaximumLikelihoodModel", cfgDense junk⟩
+  | "dsparse" => some ⟨"MDP::SparseExperience", "MaximumLikelihoodModel", cfgDense junk⟩
+  | "generic" => some ⟨"GenericExperience", "MaximumLikelihoodModel", cfgDense junk⟩
+  | "sparse"  => some ⟨"MDP::SparseExperience", "SparseMaximumLikelihoodModel", cfgSparse junk⟩
+  | "gsparse" => some ⟨"GenericExperience", "SparseMaximumLikelihoodModel<generic>", cfgGSparse junk⟩
+  | "bandit"  => some ⟨"Bandit::Experience", "none", cfgPlain junk⟩
+  | "fbandit" => some ⟨"Factored::Bandit::Experience", "none", cfgPlain junk⟩
+  | "coop"    => some ⟨"CooperativeExperience", "CooperativeMaximumLikelihoodModel", cfgPlain junk⟩
   | _ => none
 
 structure ExpObs where
@@ -262,10 +256,146 @@ def thompson : P String := do
   P.eof
   pure v.render
 
+/-- `C07 tsync <component> <w> <n> { cnt[w] N mean M2 | g[w] t sd | row[w] rew }`
+    a Thompson model row together with the engine outputs that produced it (the harness replays the model's
+    random engine from the same seed: gamma draws with the Jeffreys parameters `dirichletParams cnt`, then — when
+    N ≥ 2 — one Student-t draw with N−1 degrees of freedom; `sd` is the harness's own `sqrt(M2/(N(N−1)))`).
+    diff: the Lean `Pair.thompsonSync` on these outputs vs the implementation; fail: validity clauses. -/
+def tsync : P String := do
+  let comp ← P.tok; let w ← P.nat; let n ← P.nat
+  let rec go : Nat → Nat → Verdict → P Verdict
+    | 0, _, v => pure v
+    | k+1, i, v => do
+        let cnt ← P.rep P.nat w; let nn ← P.nat; let mean ← P.q; let m2 ← P.q
+        let gs ← P.rep P.q w; let t ← P.q; let sd ← P.q
+        let o ← pMod w
+        let cell : Cell := ⟨nn, mean, m2⟩
+        let pr : Pair := { (Pair.init w 0 i) with cell := cell, cnt := cnt }
+        let q := pr.thompsonSync gs t sd
+        -- the harness's sd against the model's posterior scale
+        let v := match thompsonPost cell with
+          | some post => v.diffIf (!(closeQ (1/100000000) (sd * sd) post.scale2)) s!"{comp} posterior_scale pair={i} sd^2={ratStr (sd*sd)} model={ratStr post.scale2}"
+          | none => v
+        let rowBad := (List.range w).any (fun k => !(xClose (o.row.getD k .nan) (nthQ q.row k)))
+        let v := v.diffIf rowBad s!"{comp} row pair={i} model={q.row.map ratStr} impl={o.row.map showX}"
+        let v := v.diffIf (!(xClose o.rew q.rew)) s!"{comp} reward pair={i} model={ratStr q.rew} impl={showX o.rew}"
+        -- validity of what is exposed
+        let allFin := o.row.all xFin
+        let qs := o.row.map (fun x => match x with | .fin q => q | _ => 0)
+        let v := v.failIf (!allFin) s!"{comp} row_not_finite pair={i} {o.row.map showX}"
+        let v := v.failIf (allFin && qs.any (fun q => decide (q < 0))) s!"{comp} row_negative_entry pair={i}"
+        let v := v.failIf (allFin && !(decide (AITB.Exp.absQ (sumQ qs - 1) ≤ tol))) s!"{comp} row_sum_not_one pair={i} sum={ratStr (sumQ qs)}"
+        let v := v.failIf (!(xFin o.rew)) s!"{comp} reward_not_finite pair={i} {showX o.rew}"
+        let v := v.failIf (nn < 2 && !(xClose o.rew mean)) s!"{comp} reward_not_mle_below_two_visits pair={i} impl={showX o.rew}"
+        let v := v.failIf (gs.any (fun g => decide (g ≤ 0))) s!"{comp} gamma_draw_not_positive pair={i}"
+        go k (i+1) v
+  let v ← go n 0 { tag := "tsync" }
+  P.eof
+  pure v.render
+
+/-- `C07 sethist <variant> <np> <w> <A> <junk> <nops> { op }` — experience with table setters
+      r p s1 rew | cnt[w] N mean M2            record
+      R          | np × (cnt[w] N mean M2)     reset
+      V np×cnt[w]| dump                         setVisitsTable
+      M t np×x   | dump                         setRewardMatrix (t = 1: element-wise sparse overload, tolerance drop)
+      Q t np×x   | dump                         setM2Matrix
+      F          | np × (row[w] rew)            a MaximumLikelihoodModel constructed now with sync = true -/
+structure SetSt where
+  comp : String
+  np : Nat
+  w : Nat
+  a : Nat
+  cfg : Cfg
+  es : List EPair
+  gs : List EGhost
+  v : Verdict
+
+def checkE (st : SetSt) (site : String) (i : Nat) (o : ExpObs) : Verdict :=
+  let e := st.es.getD i default
+  let want := ((st.gs.getD i default).current st.w)
+  let c := st.comp ++ "." ++ site
+  let v := st.v
+  let v := v.diffIf (o.cnt != e.cnt || o.n != e.cell.n) s!"{c} visits pair={i} model={e.cnt}/{e.cell.n} impl={o.cnt}/{o.n}"
+  let v := v.diffIf (!(xClose o.mean e.cell.mean)) s!"{c} reward pair={i} model={ratStr e.cell.mean} impl={showX o.mean}"
+  let v := v.diffIf (!(xClose o.m2 e.cell.m2)) s!"{c} M2 pair={i} model={ratStr e.cell.m2} impl={showX o.m2}"
+  let v := v.failIf (o.cnt != want.cnt) s!"{c} visits_not_loaded_plus_recorded pair={i} impl={o.cnt} want={want.cnt}"
+  let v := v.failIf (o.n != want.cell.n) s!"{c} visitsSum_not_loaded_plus_recorded pair={i} impl={o.n} want={want.cell.n}"
+  let v := v.failIf (!(xClose o.mean want.cell.mean)) s!"{c} mean_not_combined_statistics pair={i} impl={showX o.mean} want={ratStr want.cell.mean}"
+  v.failIf (!(xClose o.m2 want.cell.m2)) s!"{c} m2_not_combined_statistics pair={i} impl={showX o.m2} want={ratStr want.cell.m2}"
+
+def setApply (st : SetSt) (tol : Option Rat) (ops : List EOp) : SetSt :=
+  { st with es := mapIdxFrom (fun i (e : EPair) => e.step tol (ops.getD i .nop)) 0 st.es,
+            gs := mapIdxFrom (fun i (g : EGhost) => g.step tol st.w (ops.getD i .nop)) 0 st.gs }
+
+def setDump (st : SetSt) (site : String) : P SetSt := do
+  let os ← P.rep (pExp st.w) st.np
+  let r := os.foldl (fun (acc : SetSt × Nat) o => ({ acc.1 with v := checkE acc.1 site acc.2 o }, acc.2 + 1)) (st, 0)
+  pure r.1
+
+def setOp (st : SetSt) : P SetSt := do
+  let t ← P.tok
+  let tolOf := fun (b : Bool) => if b then some AITB.Gen.equalToleranceSmall else none
+  match t with
+  | "r" => do
+      let p ← P.nat; let s1 ← P.nat; let r ← P.q
+      let o ← pExp st.w
+      let st := setApply st none ((List.range st.np).map (fun i => if i == p then EOp.record s1 r else .nop))
+      pure { st with v := checkE st "record" p o }
+  | "R" => do
+      let st := setApply st none (List.replicate st.np .reset)
+      setDump st "reset"
+  | "V" => do
+      let rows ← P.rep (P.rep P.nat st.w) st.np
+      let st := setApply st none (rows.map EOp.setCnt)
+      setDump st "setVisitsTable"
+  | "M" => do
+      let b ← P.bool; let xs ← P.rep P.q st.np
+      let st := setApply st (tolOf b) (xs.map EOp.setMean)
+      setDump st "setRewardMatrix"
+  | "Q" => do
+      let b ← P.bool; let xs ← P.rep P.q st.np
+      let st := setApply st (tolOf b) (xs.map EOp.setM2)
+      setDump st "setM2Matrix"
+  | "F" => do
+      let ms ← P.rep (pMod st.w) st.np
+      let r := ms.foldl (fun (acc : Verdict × Nat) o =>
+        let i := acc.2
+        let e := st.es.getD i default
+        let dfl := if st.a == 0 then 0 else i / st.a
+        let pr : Pair := { (Pair.init st.w dfl i) with cell := e.cell, cnt := e.cnt }
+        let q := pr.ctor st.cfg true
+        let want := ((st.gs.getD i default).current st.w)
+        let c := "MaximumLikelihoodModel.afterSetters"
+        let v := acc.1
+        let v := v.diffIf ((List.range st.w).any (fun k => !(xClose (o.row.getD k .nan) (nthQ q.row k)))) s!"{c} row pair={i} model={q.row.map ratStr} impl={o.row.map showX}"
+        let v := v.diffIf (!(xClose o.rew q.rew)) s!"{c} reward pair={i} model={ratStr q.rew} impl={showX o.rew}"
+        let v := if want.cell.n == 0 then
+            v.failIf ((List.range st.w).any (fun k => !(xClose (o.row.getD k .nan) (if k == dfl then 1 else 0))) || !(xClose o.rew 0)) s!"{c} unvisited_row_not_default pair={i}"
+          else
+            let v := v.failIf ((List.range st.w).any (fun k => !(xClose (o.row.getD k .nan) ((nthN want.cnt k : Rat) / (want.cell.n : Rat))))) s!"{c} row_not_visits_over_visitsSum pair={i} impl={o.row.map showX}"
+            v.failIf (!(xClose o.rew want.cell.mean)) s!"{c} reward_not_mean pair={i} impl={showX o.rew}"
+        (v, i + 1)) (st.v, 0)
+      pure { st with v := r.1 }
+  | _ => P.fail
+
+def sethist : P String := do
+  let vname ← P.tok; let np ← P.nat; let w ← P.nat; let a ← P.nat; let junk ← P.q; let nops ← P.nat
+  let comp := if vname == "sparse-set" then "MDP::SparseExperience" else "MDP::Experience"
+  let st0 : SetSt := { comp := comp, np := np, w := w, a := a, cfg := cfgDense junk,
+                       es := List.replicate np (EPair.init w), gs := List.replicate np { base := EPair.init w, since := [] }, v := { tag := "setters" } }
+  let rec loop : Nat → SetSt → P SetSt
+    | 0, st => pure st
+    | n+1, st => do let st' ← setOp st; loop n st'
+  let st ← loop nops st0
+  P.eof
+  pure st.v.render
+
 def handle (toks : List String) : String :=
   let r := match toks with
     | "hist" :: rest => P.run hist rest
     | "thompson" :: rest => P.run thompson rest
+    | "tsync" :: rest => P.run tsync rest
+    | "sethist" :: rest => P.run sethist rest
     | _ => none
   r.getD "bad-op"
 
